@@ -97,7 +97,7 @@ def hygienic_rmap(rng, child):
     return pairs
 
 
-def gen_tree(rng, depth, spy_p=0.0, hygienic=False):
+def gen_tree(rng, depth, spy_p=0.0, hygienic=False, twins=False, replace=False):
     if depth == 0 or rng.random() < 0.3:
         if rng.random() < spy_p:
             return {"spy": [[k, rq(rng)] for k in rng.sample(POOL, rng.randint(0, 2))]}
@@ -105,7 +105,14 @@ def gen_tree(rng, depth, spy_p=0.0, hygienic=False):
     nchild = rng.randint(1, 3)
     children = []
     for _ in range(nchild):
-        c = gen_tree(rng, depth - 1, spy_p, hygienic)
+        if twins and children and rng.random() < 0.3:
+            # the SAME object placed a second time under another renaming
+            j = rng.randrange(len(children))
+            c = copy.deepcopy(children[j]["node"])
+            children.append({"rmap": hygienic_rmap(rng, c) if hygienic else gen_rmap(rng, None), "node": c,
+                             "twin_of": children[j].get("twin_of", j)})
+            continue
+        c = gen_tree(rng, depth - 1, spy_p, hygienic, twins, replace)
         children.append({"rmap": hygienic_rmap(rng, c) if hygienic else gen_rmap(rng, None), "node": c})
     sdef = {}
     for _ in range(rng.choice([0, 0, 1, 2])):
@@ -118,8 +125,12 @@ def gen_tree(rng, depth, spy_p=0.0, hygienic=False):
         old = rng.choice(POOL)
         args = rng.sample([p for p in POOL + [6, 7] if p != old], arity)
         adds.append({"name": old, "fun": fid, "args": [[a, rq(rng)] for a in args]})
-    return {"children": children, "sdef": [[k, v] for k, v in sdef.items()], "adds": adds,
+    node = {"children": children, "sdef": [[k, v] for k, v in sdef.items()], "adds": adds,
             "set_after": rng.random() < 0.5}
+    if replace and rng.random() < 0.3:
+        # set_default_params: the whole dictionary is replaced (definition defaults of add_param become reachable)
+        node["replaced"] = [[k, rq(rng)] for k in rng.sample(POOL, rng.randint(0, 2))]
+    return node
 
 
 def visible_defaults(node):
@@ -137,7 +148,24 @@ def visible_defaults(node):
         if a["name"] in out:
             out.discard(a["name"])
             out |= {x for x, _ in a["args"]}
+    if "replaced" in node:
+        return {k for k, _ in node["replaced"]}
     return out
+
+
+def drop_child(node, i):
+    """delete child i of a solver node, keeping the twin_of references of the others meaningful"""
+    del node["children"][i]
+    for ch in node["children"]:
+        if "twin_of" in ch:
+            if ch["twin_of"] == i:
+                del ch["twin_of"]
+            elif ch["twin_of"] > i:
+                ch["twin_of"] -= 1
+    # a twin whose original was deleted becomes the original of its later twins
+    for k, ch in enumerate(node["children"]):
+        if "twin_of" in ch and "twin_of" in node["children"][ch["twin_of"]]:
+            ch["twin_of"] = node["children"][ch["twin_of"]]["twin_of"]
 
 
 def sanitize(node):
@@ -147,7 +175,10 @@ def sanitize(node):
     for ch in node["children"]:
         sanitize(ch["node"])
     saved, node["adds"] = node["adds"], []
+    rep = node.pop("replaced", None)
     vis = visible_defaults(node)
+    if rep is not None:
+        node["replaced"] = rep
     node["adds"] = [a for a in saved if a["name"] in vis]
 
 
@@ -160,7 +191,13 @@ def build(node, counter, registry=None, path=()):
         return Spy({pn(k): v for k, v in node["spy"]}), None
     kids = []
     for i, ch in enumerate(node["children"]):
-        kids.append(build(ch["node"], counter, registry, path + (i,)))
+        if "twin_of" in ch:
+            kids.append(kids[ch["twin_of"]])
+            if registry is not None and isinstance(kids[-1][0], lk.Solver):
+                for pth in [q for q in list(registry) if q[:len(path) + 1] == path + (ch["twin_of"],)]:
+                    registry[path + (i,) + pth[len(path) + 1:]] = registry[pth]
+        else:
+            kids.append(build(ch["node"], counter, registry, path + (i,)))
     pairs = []
     with lk.Solver() as S:
         for ch, (obj, sub_pairs) in zip(node["children"], kids):
@@ -188,6 +225,10 @@ def build(node, counter, registry=None, path=()):
                 # a solver default given AFTER the definition must be honoured by the function
                 x, d = a["args"][0]
                 S.set_param(pn(x), d + 0.75)
+        if "replaced" in node:
+            rep = {"wl": None}
+            rep.update({pn(k): v for k, v in node["replaced"]})
+            lk.set_default_params(rep)
     if registry is not None:
         registry[path] = (S, pairs)
     return S, pairs
@@ -216,4 +257,5 @@ def tree_lit(node):
         if node.get("set_after"):
             x, d = a["args"][0]
             after.append([x, d + 0.75])
-    return "PSol %s %s %s %s" % (kids, dict_lit(node["sdef"]), clist(adds), dict_lit(after))
+    rep = "None" if "replaced" not in node else "(Some %s)" % dict_lit(node["replaced"])
+    return "PSol %s %s %s %s %s" % (kids, dict_lit(node["sdef"]), clist(adds), dict_lit(after), rep)
